@@ -1,5 +1,6 @@
 /* Stub for wrapped commands (git, rg) and pagers' producers: prints the file named by $STUB_OUT to
- * stdout, appends its argv to $STUB_LOG (one line), exits with $STUB_EXIT (default 0). */
+ * stdout, appends its argv to $STUB_LOG (one line), exits with $STUB_EXIT (default 0).
+ * $STUB_ERR_LINES: number of lines written to stderr before anything is written to stdout. */
 #include <stdio.h>
 #include <stdlib.h>
 #include <string.h>
@@ -49,6 +50,13 @@ int main(int argc, char **argv) {
     }
     const char *e2 = getenv("STUB_EXIT");
     return e2 ? atoi(e2) : 0;
+  }
+  /* $STUB_ERR_LINES: that many diagnostic lines on stderr first (a command that complains a lot) */
+  const char *el = getenv("STUB_ERR_LINES");
+  if (el) {
+    long n = atol(el);
+    for (long i = 0; i < n; i++) fprintf(stderr, "error: branch 'nonexistent-branch-name-%ld' not found.\n", i);
+    fflush(stderr);
   }
   const char *out = getenv("STUB_OUT");
   if (out) {
